@@ -117,7 +117,7 @@ def big_case(seed, i, engine):
     n = r.choice([299, 301, 650])
     pfx = PREFIX + b"/big/"
     border = enc(pfx + (b"%05d" % r.randint(1, n - 1)), r.choice([0, 0, hist.INIT + 5]))
-    lines = [hist.cfg_line(engine, splits=hx(border)), "fill %d %s %s" % (n, hx(pfx), hx(b"v")), "rev"]
+    lines = [hist.cfg_line(engine, splits=hx(border)), "bulk %d %s %s" % (n, hx(pfx), hx(b"v")), "rev"]
     a, b = PREFIX + b"/", PREFIX + b"0"
     for R in (0, hist.INIT + n, hist.INIT + n // 2):
         lines.append("stream %s %s %d" % (hx(enc(a, 0)), hx(enc(b, 0)), R))
